@@ -442,3 +442,87 @@ func StreamsDiff(a, b []StreamM, skipMeta ...string) string {
 	}
 	return ""
 }
+
+// StrictSchemaDiff explains the first difference between two schemas at any
+// depth, "" when none: unlike SchemaDiff it also compares schema and field
+// metadata, child field names / nullability / metadata, and type parameters.
+func StrictSchemaDiff(a, b *arrow.Schema) string {
+	if d := strictMetaDiff(a.Metadata(), b.Metadata()); d != "" {
+		return "schema metadata " + d
+	}
+	if a.NumFields() != b.NumFields() {
+		return fmt.Sprintf("field count %d vs %d", a.NumFields(), b.NumFields())
+	}
+	for i := 0; i < a.NumFields(); i++ {
+		if d := strictFieldDiff(a.Field(i), b.Field(i), fmt.Sprintf("field %d", i)); d != "" {
+			return d
+		}
+	}
+	return ""
+}
+
+func strictMetaDiff(a, b arrow.Metadata) string {
+	if a.Len() != b.Len() {
+		return fmt.Sprintf("%v vs %v", a, b)
+	}
+	for i, k := range a.Keys() {
+		if b.Keys()[i] != k || b.Values()[i] != a.Values()[i] {
+			return fmt.Sprintf("%v vs %v", a, b)
+		}
+	}
+	return ""
+}
+
+func strictFieldDiff(a, b arrow.Field, where string) string {
+	if a.Name != b.Name {
+		return fmt.Sprintf("%s name %q vs %q", where, a.Name, b.Name)
+	}
+	where = fmt.Sprintf("%s (%q)", where, a.Name)
+	if a.Nullable != b.Nullable {
+		return fmt.Sprintf("%s nullable %v vs %v", where, a.Nullable, b.Nullable)
+	}
+	if d := strictMetaDiff(a.Metadata, b.Metadata); d != "" {
+		return where + " metadata " + d
+	}
+	return strictTypeDiff(a.Type, b.Type, where)
+}
+
+func strictTypeDiff(a, b arrow.DataType, where string) string {
+	if a.ID() != b.ID() {
+		return fmt.Sprintf("%s type %s vs %s", where, a, b)
+	}
+	if da, ok := a.(*arrow.DictionaryType); ok {
+		db := b.(*arrow.DictionaryType)
+		if da.Ordered != db.Ordered {
+			return fmt.Sprintf("%s dictionary ordered %v vs %v", where, da.Ordered, db.Ordered)
+		}
+		if d := strictTypeDiff(da.IndexType, db.IndexType, where+" index"); d != "" {
+			return d
+		}
+		return strictTypeDiff(da.ValueType, db.ValueType, where+" values")
+	}
+	na, nested := a.(arrow.NestedType)
+	if !nested {
+		// parametric leaf types print their parameters (width, unit, zone, precision)
+		if a.String() != b.String() || !arrow.TypeEqual(a, b) {
+			return fmt.Sprintf("%s type %s vs %s", where, a, b)
+		}
+		return ""
+	}
+	nb := b.(arrow.NestedType)
+	if na.NumFields() != nb.NumFields() {
+		return fmt.Sprintf("%s child count %d vs %d", where, na.NumFields(), nb.NumFields())
+	}
+	if fa, ok := a.(*arrow.FixedSizeListType); ok && fa.Len() != b.(*arrow.FixedSizeListType).Len() {
+		return fmt.Sprintf("%s list size %d vs %d", where, fa.Len(), b.(*arrow.FixedSizeListType).Len())
+	}
+	if ma, ok := a.(*arrow.MapType); ok && ma.KeysSorted != b.(*arrow.MapType).KeysSorted {
+		return fmt.Sprintf("%s keys-sorted differs", where)
+	}
+	for i := 0; i < na.NumFields(); i++ {
+		if d := strictFieldDiff(na.Fields()[i], nb.Fields()[i], fmt.Sprintf("%s child %d", where, i)); d != "" {
+			return d
+		}
+	}
+	return ""
+}
